@@ -257,15 +257,7 @@ def rules(ctx):
     for cname_ in ('QUBO', 'QUSO'):
         f_ = P.func('%s.convert_solution' % cname_)
         sn = R.self_name(f_)
-        sol = f_.params[1]
-        for r in [x for x in walk_no_nested(strip_docstring(f_.node.body)) if isinstance(x, ast.Return)]:
-            v = r.value
-            ok = False
-            if isinstance(v, ast.DictComp) and len(v.generators) == 1 and not v.generators[0].ifs:
-                gen = v.generators[0]
-                i = src(gen.target)
-                ok = src(gen.iter) in ('range(%s.num_binary_variables)' % sn, 'range(%s._num_binary_variables)' % sn,
-                                       'range(len(%s._reverse_mapping))' % sn) and \
-                    src(v.key) == '%s._reverse_mapping[%s]' % (sn, i) and src(v.value) == '%s[%s]' % (sol, i)
-            ctx.inst('R04.9', f_, r, ok, "solution decoded label by label through the reverse mapping" if ok else
-                     "convert_solution does not undo the relabelling as {reverse_mapping[i]: solution[i] for i < n}")
+        from .C01 import decode_range_ok
+        ok, r = decode_range_ok(f_, sn)
+        ctx.inst('R04.9', f_, r if r is not None else 'return', ok, "solution decoded label by label through the reverse mapping" if ok else
+                 "convert_solution does not undo the relabelling as {reverse_mapping[i]: solution[i] for i < n}")
